@@ -120,6 +120,9 @@ pub fn mix_table(mix: &str) -> Vec<(&'static str, u32)> {
             ("clone", 3), ("clone_from", 6), ("extend", 3), ("get", 3), ("eq", 2), ("new", 3), ("into_iter", 1),
             ("e_replace_none", 2), ("e_insert", 2), ("re_from_key_or_insert", 2), ("get_many_mut", 2), ("iter", 1),
         ],
+        "tryres" => vec![
+            ("insert", 30), ("remove", 22), ("try_reserve", 40), ("shrink_to_fit", 3), ("clear", 1), ("drain", 2), ("get", 2),
+        ],
         "many" => vec![
             ("insert", 30), ("remove", 20), ("get_many_mut", 15), ("get_many_kv_mut", 8), ("index", 4),
             ("insert_unique_unchecked", 3),
@@ -226,7 +229,9 @@ impl OpGen {
             "try_reserve" => {
                 let c = rng.random_range(0..10);
                 if c < 6 {
-                    ev.n = rng.random_range(0..(3 * self.nkeys as i64));
+                    // small amounts, biased to the 7/8 * 2^k boundaries
+                    let b = [3i64, 7, 14, 28, 56, 112][rng.random_range(0..6)];
+                    ev.n = if rng.random_range(0..2) == 0 { rng.random_range(0..(3 * self.nkeys as i64)) } else { (b + rng.random_range(-2..3)).max(0) };
                 } else {
                     ev.n = -(rng.random_range(1..7) as i64);
                     ev.j = rng.random_range(0..3);
@@ -391,7 +396,9 @@ pub fn arm_random_class(ev: &mut Event, pct: u32, rng: &mut SmallRng, force: Opt
     }
     let c = rng.random_range(0..100);
     let cloning = matches!(ev.op.as_str(), "clone" | "clone_from" | "or_assign" | "xor_assign" | "op_or" | "op_and" | "op_xor" | "op_sub");
-    let class = if cloning {
+    let class = if ev.op == "try_reserve" {
+        "alloc"
+    } else if cloning {
         if c < 45 {
             "clone"
         } else if c < 70 {
